@@ -520,6 +520,14 @@ func TestC19Rapid(t *testing.T) {
 				return
 			case "create":
 				prop, chal := w.users[rapid.IntRange(0, 3).Draw(rt, "prop")], w.users[rapid.IntRange(0, 3).Draw(rt, "chal")]
+				if len(w.bridges) > 0 && rapid.Bool().Draw(rt, "sameChallengerAsAnotherBridge") {
+					// one operator challenges several bridges
+					for _, u := range w.users {
+						if u.Str == w.bridges[0].challenger {
+							chal = u
+						}
+					}
+				}
 				kind, md := genMetadata(rt)
 				cfg := henv.DefaultBridgeConfig(prop.Str, chal.Str, time.Minute)
 				cfg.Metadata = md
@@ -542,8 +550,12 @@ func TestC19Rapid(t *testing.T) {
 			case "metadata":
 				b := w.bridges[rapid.IntRange(0, len(w.bridges)-1).Draw(rt, "bridge")]
 				kind, md := genMetadata(rt)
-				if rapid.IntRange(0, 4).Draw(rt, "resubmit") == 0 {
+				switch rapid.IntRange(0, 5).Draw(rt, "resubmit") {
+				case 0:
 					kind, md = "resubmit-current", append([]byte{}, b.metadata...) // the stored metadata, byte for byte
+				case 1:
+					// the list of another bridge (bridges of one challenger may share channels)
+					kind, md = "adopt-list-of-another-bridge", append([]byte{}, w.bridges[rapid.IntRange(0, len(w.bridges)-1).Draw(rt, "otherBridge")].metadata...)
 				}
 				signer := b.proposer
 				if rapid.IntRange(0, 9).Draw(rt, "gov") == 0 {
